@@ -24,6 +24,24 @@ use verif_harness::{join, parse_args, rng::Rng, Recorder};
 
 static LOG_ON: AtomicBool = AtomicBool::new(false);
 static LOG_LINES: Mutex<Vec<String>> = Mutex::new(Vec::new());
+static PANICS: Mutex<Vec<String>> = Mutex::new(Vec::new());
+/// every client thread connects from its own loopback address: an access-log line names its connection uniquely
+thread_local! { static SRC_IP: std::cell::Cell<u8> = const { std::cell::Cell::new(1) }; }
+static RT_HANDLE: std::sync::OnceLock<tokio::runtime::Handle> = std::sync::OnceLock::new();
+fn connect_from_here(addr: SocketAddr) -> Result<TcpStream, String> {
+    let src = SRC_IP.with(|c| c.get());
+    if src == 1 { return TcpStream::connect_timeout(&addr, Duration::from_secs(10)).map_err(|e| format!("connect: {e}")); }
+    let h = RT_HANDLE.get().ok_or("no runtime")?;
+    let s = h.block_on(async {
+        let sock = tokio::net::TcpSocket::new_v4().map_err(|e| format!("socket: {e}"))?;
+        sock.bind(SocketAddr::from(([127, 0, 0, src], 0))).map_err(|e| format!("bind: {e}"))?;
+        tokio::time::timeout(Duration::from_secs(10), sock.connect(addr)).await.map_err(|_| "connect: timeout".to_string())?.map_err(|e| format!("connect: {e}"))
+    })?;
+    let s = s.into_std().map_err(|e| format!("into_std: {e}"))?;
+    s.set_nonblocking(false).map_err(|e| format!("blocking: {e}"))?;
+    Ok(s)
+}
+thread_local! { static ASKING_DEPS: std::cell::Cell<bool> = const { std::cell::Cell::new(false) }; }
 struct CapLog;
 impl log::Log for CapLog {
     fn enabled(&self, m: &log::Metadata) -> bool { m.target() == "rotonda::http" && (m.level() <= log::Level::Info || LOG_ON.load(Ordering::SeqCst)) }
@@ -205,16 +223,17 @@ fn parse_responses(buf: &[u8], heads: &[bool]) -> (Vec<RawResp>, Tail) {
     }
 }
 
-struct Exchange { received: Vec<u8>, end: &'static str, local_port: u16, write_failed: bool }
+struct Exchange { received: Vec<u8>, end: &'static str, local_port: u16, write_failed: bool, log_from: usize, log_to: usize }
 
 const DEADLINE: Duration = Duration::from_secs(40);
 
 fn exchange(addr: SocketAddr, acts: &[Act], heads: &[bool]) -> Result<Exchange, String> {
-    let mut s = TcpStream::connect_timeout(&addr, Duration::from_secs(10)).map_err(|e| format!("connect: {e}"))?;
+    let mut s = connect_from_here(addr)?;
     let _ = s.set_nodelay(true);
     let _ = s.set_read_timeout(Some(Duration::from_millis(50)));
     let _ = s.set_write_timeout(Some(Duration::from_secs(15)));
     let local_port = s.local_addr().map(|a| a.port()).unwrap_or(0);
+    let log_from = LOG_LINES.lock().unwrap().len();
     let t0 = Instant::now();
     let mut received = vec![];
     let mut end: Option<&'static str> = None;
@@ -246,7 +265,10 @@ fn exchange(addr: SocketAddr, acts: &[Act], heads: &[bool]) -> Result<Exchange, 
         }
     }
     while end.is_none() && t0.elapsed() < DEADLINE { pump(&mut s, &mut received, &mut end); }
-    Ok(Exchange { received, end: end.unwrap_or("hang"), local_port, write_failed })
+    // while the socket is still ours nobody else can own (and log under) its local port
+    let log_to = LOG_LINES.lock().unwrap().len();
+    drop(s);
+    Ok(Exchange { received, end: end.unwrap_or("hang"), local_port, write_failed, log_from, log_to })
 }
 
 // ------------------------------------------------------------------ items, connections, cases
@@ -268,6 +290,9 @@ struct Item {
     /// the first Accept-Encoding value the item carries
     ae: Option<Vec<u8>>,
     kind: &'static str,
+    /// CONNECT or an `Upgrade` header: hyper then ends the connection without shutting its sending side down first
+    /// (a pending upgrade is never cleared), so responses still held back by Nagle are lost if the client is still sending
+    upgradey: bool,
 }
 
 #[derive(Clone, Debug, PartialEq)]
@@ -351,7 +376,7 @@ fn parse_case(line: &str, srvs: &[Srv]) -> Option<Case> {
         at += len;
         let ae = first_accept_encoding(&bytes[..p[1].parse::<usize>().ok()?.min(bytes.len())]);
         items.push(Item { bytes, head_len: p[1].parse().ok()?, is_head: p[2].contains('H'), closes: p[2].contains('C'), method_get: p[2].contains('G'),
-            bad: p[3].strip_prefix('b').and_then(|c| c.parse().ok()), expect: p[4].strip_prefix('e').and_then(|c| c.parse().ok()), ae, kind: "replay" });
+            bad: p[3].strip_prefix('b').and_then(|c| c.parse().ok()), expect: p[4].strip_prefix('e').and_then(|c| c.parse().ok()), ae, kind: "replay", upgradey: false });
     }
     if at != stream.len() { return None; }
     Some(Case { srv, addr_ix: addr_ix.min(srvs[srv].addrs.len() - 1), items, shape, log, kind: "replay".into() })
@@ -407,13 +432,14 @@ impl ReqSpec {
         let expect = self.headers.iter().any(|(n, v)| n.eq_ignore_ascii_case(b"expect") && v.eq_ignore_ascii_case(b"100-continue"));
         let data_chunks = self.body.split(|b| *b == b'\n').step_by(2).filter(|l| !l.is_empty() && *l != b"0\r" && *l != b"\r").count();
         let chunked_open = self.headers.iter().any(|(n, _)| n.eq_ignore_ascii_case(b"transfer-encoding")) && data_chunks + 1 > if expect { 1 } else { 2 };
-        Item { bytes, head_len, is_head: self.method == "HEAD", bad: None, closes: !self.keep_alive() || chunked_open, expect: self.expect, method_get: self.method == "GET", ae, kind: self.kind }
+        let upgradey = self.method == "CONNECT" || self.headers.iter().any(|(n, _)| n.eq_ignore_ascii_case(b"upgrade"));
+        Item { bytes, head_len, is_head: self.method == "HEAD", bad: None, closes: !self.keep_alive() || chunked_open, expect: self.expect, method_get: self.method == "GET", ae, kind: self.kind, upgradey }
     }
 }
 
 fn bad_item(bytes: Vec<u8>, code: u16, kind: &'static str) -> Item {
     let n = bytes.len();
-    Item { bytes, head_len: n, is_head: false, bad: Some(code), closes: true, expect: None, method_get: false, ae: None, kind }
+    Item { bytes, head_len: n, is_head: false, bad: Some(code), closes: true, expect: None, method_get: false, ae: None, kind, upgradey: false }
 }
 
 struct Gen { rng: Rng }
@@ -804,7 +830,7 @@ fn judge(case: &Case, srv: &Srv, ex: &Exchange, log_lines: &[String]) -> Judged 
     }
     // -- access log: one line per request that reached the handler, in order, with the status sent
     if case.log {
-        let me = format!("127.0.0.1:{} - - ", ex.local_port);
+        let me = format!("127.0.0.{}:{} - - ", SRC_IP.with(|c| c.get()), ex.local_port);
         let mine: Vec<&String> = log_lines.iter().filter(|l| l.starts_with("TRACE ") && l[6..].starts_with(&me)).collect();
         let sent: Vec<u16> = resps.iter().enumerate().filter(|(i, _)| case.items.get(*i).map(|it| it.bad.is_none()).unwrap_or(false)).map(|(_, r)| r.status).collect();
         let logged: Vec<u16> = mine.iter().filter_map(|l| { let mut w = l.rsplit(' '); w.next()?; w.next()?.parse().ok() }).collect();
@@ -829,7 +855,7 @@ impl Control {
     fn new(addr: SocketAddr) -> Control { Control { s: None, addr } }
     fn ping(&mut self) -> Result<(), String> {
         let fresh = self.s.is_none();
-        if fresh { let s = TcpStream::connect_timeout(&self.addr, Duration::from_secs(10)).map_err(|e| format!("connect: {e}"))?; let _ = s.set_nodelay(true); let _ = s.set_read_timeout(Some(Duration::from_secs(30))); self.s = Some(s); }
+        if fresh { let s = connect_from_here(self.addr)?; let _ = s.set_nodelay(true); let _ = s.set_read_timeout(Some(Duration::from_secs(30))); self.s = Some(s); }
         let s = self.s.as_mut().unwrap();
         let r: Result<(), String> = (|| {
             s.write_all(b"GET /metrics HTTP/1.1\r\nHost: control\r\n\r\n").map_err(|e| format!("write: {e}"))?;
@@ -933,10 +959,11 @@ fn corpus(g: &mut Gen) -> Vec<Case> {
         cs.push(conn(srv, vec![e(h100, 200, "100-headers"), closer(2)], Shape::One, "100-headers"));
         let long = format!("/{}", "a".repeat(65533));
         cs.push(conn(srv, vec![e(ReqSpec::get(&long), 404, "uri-65534"), closer(0)], Shape::One, "uri-max"));
-        // a head far beyond hyper's buffer limit (417 792 bytes; the limit is only checked between reads, so a head
-        // of up to about twice that may still pass: the oversized one here is 1 MB)
-        { let mut b = b"GET / HTTP/1.1\r\nHost: x\r\nX-Big: ".to_vec(); b.extend(std::iter::repeat(b'v').take(1_000_000)); b.extend(b"\r\n\r\n");
-          cs.push(conn(srv, vec![five()[0].clone(), bad_item(b, 431, "bad.header-block-too-large"), five()[0].clone()], Shape::One, "malformed")); }
+        // a head far beyond hyper's buffer limit (417 792 bytes; the limit is only checked between reads and a read
+        // fills whatever capacity the buffer has grown to, at most four times the limit: a head of 430 kB and one of
+        // 1 MB were both seen to pass under load; the oversized one here is 1.8 MB)
+        { let mut b = b"GET / HTTP/1.1\r\nHost: x\r\nX-Big: ".to_vec(); b.extend(std::iter::repeat(b'v').take(1_800_000)); b.extend(b"\r\n\r\n");
+          cs.push(conn(srv, vec![five()[0].clone(), bad_item(b, 431, "bad.header-block-too-large")], Shape::One, "malformed")); }
         // HTTP/2 prior-knowledge preface: the listener speaks h2 as well (hyper feature unification)
         cs.push(conn(srv, vec![{ let mut i = bad_item(b"PRI * HTTP/2.0\r\n\r\nSM\r\n\r\n".to_vec(), 0, "h2-preface"); i.kind = "h2-preface"; i }], Shape::HalfAfter(1), "h2-preface"));
         // upgrade request, CONNECT, OPTIONS *
@@ -950,8 +977,9 @@ fn corpus(g: &mut Gen) -> Vec<Case> {
             let mut it = gg.malformed(); let mut guard = 0;
             while guard < 400 && cs.iter().filter(|c: &&Case| c.srv == srv && c.kind == "malformed").any(|c| c.items.iter().any(|i| i.kind == it.kind)) { it = gg.malformed(); guard += 1; }
             if guard >= 400 { continue; }
-            cs.push(conn(srv, vec![five()[k as usize % 5].clone(), it.clone(), five()[0].clone()], Shape::One, "malformed"));
-            if it.bytes.len() < 2000 { cs.push(conn(srv, vec![it.clone(), five()[1].clone()], Shape::Split(vec![1, it.bytes.len() / 2, it.bytes.len()], 2), "malformed-split")); }
+            if it.bytes.len() < 4000 { cs.push(conn(srv, vec![five()[k as usize % 5].clone(), it.clone(), five()[0].clone()], Shape::One, "malformed")); }
+            else { cs.push(conn(srv, vec![five()[k as usize % 5].clone(), it.clone()], Shape::One, "malformed")); }
+            if it.bytes.len() < 2000 { cs.push(conn(srv, vec![it.clone()], Shape::Split(vec![1, it.bytes.len() / 2], 2), "malformed-split")); }
         }
     }
     // the second listen address of server 0 serves the same resources
@@ -974,6 +1002,12 @@ fn random_case(g: &mut Gen, srv: usize, n_addrs: usize) -> Case {
     let mut shape = match g.rng.below(100) { 0..=44 => Shape::One, 45..=74 => Shape::Split(vec![], 0), 75..=84 => Shape::Step, 85..=94 => Shape::HalfAfter(0), _ => Shape::HalfNow };
     // a request body is only drained when hyper finds it complete in its buffer (one write, one read): see notes
     if has_body { if total > 7000 { for i in items.iter_mut() { if i.bytes.len() > i.head_len { *i = closer(0); i.closes = false; i.bytes = ReqSpec::get("/status").item().bytes; i.head_len = i.bytes.len(); } } } if items.iter().any(|i| i.bytes.len() > i.head_len) { shape = Shape::One; } }
+    // Bytes behind the item that ends the connection: the server closes with them unread (a TCP reset), and what it
+    // sent last may never reach the client (held back by Nagle, discarded by the abortive close). Keep them only where
+    // hyper has read them already when it closes: one write of less than its first read (8192 bytes).
+    let total: usize = items.iter().map(|i| i.bytes.len()).sum();
+    if let Some(e) = items.iter().position(|i| i.bad.is_some() || i.closes) { if shape != Shape::One || total > 8000 { items.truncate(e + 1); } }
+    if items.iter().any(|i| i.upgradey) && !matches!(shape, Shape::HalfAfter(_) | Shape::HalfNow) { let total: usize = items.iter().map(|i| i.bytes.len()).sum(); shape = if total <= 8000 { Shape::One } else { Shape::Step }; }
     let ends = items.iter().any(|i| i.bad.is_some() || i.closes);
     match shape {
         Shape::HalfAfter(_) => { let upto = items.iter().position(|i| i.bad.is_some() || i.closes).map(|p| p + 1).unwrap_or(items.len()); shape = Shape::HalfAfter(upto); }
@@ -1002,16 +1036,26 @@ fn run_one(case: &Case, srvs: &[Srv], controls: &mut Vec<Control>) -> Done {
     let srv = &srvs[case.srv];
     let addr = srv.addrs[case.addr_ix.min(srv.addrs.len() - 1)];
     let mut deps: BTreeMap<String, String> = BTreeMap::new();
+    ASKING_DEPS.with(|a| a.set(true));
     for it in &case.items { if it.bad.is_none() { if let Some(t) = target_of(&it.bytes) { deps_into(&mut deps, &t); } } }
+    ASKING_DEPS.with(|a| a.set(false));
     let deps = if deps.is_empty() { "-".to_string() } else { join(deps.iter().map(|(k, v)| format!("{k}={v}")), " ") };
     let case_line = format!("{}|{}|{}|{}|{}", srv.desc, case.shape_txt(), hex(&case.stream()), deps, case.meta_txt());
     let heads = case.heads();
-    let log_from = LOG_LINES.lock().unwrap().len();
+    let panics_from = PANICS.lock().unwrap().len();
     let mut j = match exchange(addr, &case.acts(), &heads) {
         Ok(ex) => {
-            let lines: Vec<String> = if case.log { LOG_LINES.lock().unwrap()[log_from..].to_vec() } else { vec![] };
+            // lines logged since this connection was made: an earlier owner of the local port logged before it closed
+            let lines: Vec<String> = if case.log { let l = LOG_LINES.lock().unwrap(); l[ex.log_from.min(l.len())..ex.log_to.min(l.len())].to_vec() } else { vec![] };
             let mut j = judge(case, srv, &ex, &lines);
             if ex.write_failed { j.info.push_str(" write-failed"); }
+            if std::env::var("HS_DEBUG").is_ok() { eprintln!("debug: received {} bytes, end {}, write_failed {}, log {:?}", ex.received.len(), ex.end, ex.write_failed, lines); }
+            // a request that makes the handler panic loses its connection: name the site
+            let new_panics: Vec<String> = PANICS.lock().unwrap()[panics_from..].to_vec();
+            if !j.fails.is_empty() { if let Some(p) = new_panics.last() {
+                let site = p.split(' ').next().unwrap_or("?").rsplit('/').next().unwrap_or("?").to_string();
+                j.fails.insert(0, format!("httpserver:panic:{site} a request made the handler panic ({p}): the connection was dropped without an answer"));
+            } }
             j
         }
         Err(e) => Judged { imp: format!("no-connection ## {e}"), fails: vec![format!("httpserver:listener:refused {e}")], ..Default::default() },
@@ -1030,7 +1074,8 @@ fn run_one(case: &Case, srvs: &[Srv], controls: &mut Vec<Control>) -> Done {
 
 fn record(rec: &mut Recorder, d: Done) {
     for k in &d.dist { rec.bump(k); }
-    let oracle = if d.j.fails.is_empty() { "ok".to_string() } else { format!("fail {}", d.j.fails[0]) };
+    let oracle = if d.j.fails.is_empty() { "ok".to_string() } else if d.j.fails.len() == 1 { format!("fail {}", d.j.fails[0]) }
+        else { format!("fail {} ;; also: {}", d.j.fails[0], d.j.fails[1..].iter().take(4).map(|f| f.chars().take(160).collect::<String>()).collect::<Vec<_>>().join(" ;; ")) };
     rec.case(d.case_line, d.j.imp.replace('\n', " "), oracle.replace('\n', " "), d.nontrivial);
 }
 
@@ -1039,11 +1084,18 @@ fn show(b: &[u8]) -> String { b.iter().map(|c| match c { b'\r' => "\\r".into(), 
 fn main() {
     let args = parse_args();
     let t0 = Instant::now();
-    std::panic::set_hook(Box::new(|_| {}));
+    // a panic of the real code is an observation (the connection is dropped); its site goes to PANICS for the oracle
+    std::panic::set_hook(Box::new(|info| {
+        let loc = info.location().map(|l| format!("{}:{}", l.file(), l.line())).unwrap_or("?".into());
+        let msg = info.payload().downcast_ref::<String>().cloned().or_else(|| info.payload().downcast_ref::<&str>().map(|s| s.to_string())).unwrap_or_default();
+        let msg: String = msg.chars().map(|c| if c.is_ascii_graphic() { c } else { '_' }).take(100).collect();
+        if !ASKING_DEPS.with(|a| a.get()) { PANICS.lock().unwrap().push(format!("{loc} {msg}")); }
+    }));
     let _ = log::set_logger(&CAPLOG);
     log::set_max_level(log::LevelFilter::Trace);
     let mut rec = Recorder::new("raw HTTP/1.x connections to the production server (Server::run on loopback, two servers: compression on with two listen addresses / off with one, live bmp-tcp-in + mrt-file-in -> rib -> null-out pipeline): C12's request classes dressed with versions, Host / Connection / Accept-Encoding variants (weights, wildcard, casing, repetition, obs-text), bodies, bare-LF line ends; pipelined, cut at every boundary class and byte by byte, one at a time, half-closed, HTTP/1.0, oversized heads, every malformed class; non-trivial = at least one response from the handler on a connection with >= 2 items, a non-trivial wire shape or an Accept-Encoding header; distinct = distinct case lines");
     let rt = tokio::runtime::Builder::new_multi_thread().worker_threads(4).enable_all().build().unwrap();
+    let _ = RT_HANDLE.set(rt.handle().clone());
     let srvs: Vec<Srv> = match (start_server(&rt, true, 2), start_server(&rt, false, 1)) {
         (Ok(a), Ok(b)) => vec![a, b],
         (a, b) => { eprintln!("httpserver: could not start the servers: {:?} {:?}", a.err(), b.err()); std::process::exit(3); }
@@ -1115,8 +1167,10 @@ fn main() {
         let next = std::sync::atomic::AtomicUsize::new(0);
         let results: Mutex<Vec<(usize, Done)>> = Mutex::new(vec![]);
         std::thread::scope(|sc| {
-            for _ in 0..workers.min(block.len()) {
-                sc.spawn(|| {
+            for w in 0..workers.min(block.len()) {
+                let (next, results, srvs) = (&next, &results, &srvs);
+                sc.spawn(move || {
+                    SRC_IP.with(|c| c.set(10 + w as u8));
                     let mut controls: Vec<Control> = srvs.iter().map(|s| Control::new(s.addrs[0])).collect();
                     loop {
                         let i = next.fetch_add(1, Ordering::SeqCst);
